@@ -54,5 +54,5 @@ PY
 else
   res "NOT KEPT (needs: build ok, suite ok, demo passes clean, demo fails changed)"
 fi
-mkdir -p /verif/.work/seedlogs; cp $D/result.txt /verif/.work/seedlogs/$ID-$L.txt; cp $D/demo-*.log $D/check-*.log /verif/.work/seedlogs/ 2>/dev/null
+SL=${VERIF_DIR:-/verif}/.work/seedlogs/${SEED_PREFIX:-seed}-$ID-$L; mkdir -p $SL; cp $D/result.txt $D/demo-*.log $D/check-*.log $SL/ 2>/dev/null
 git -C /repo worktree remove --force "$D/wt"; rm -rf $D
